@@ -72,6 +72,23 @@ func c16Sets() []*sgen.Schema {
 			{Kind: sgen.KUnion, Name: "U", Extend: true, Members: []string{"X2", "W", "V"}},
 			{Kind: sgen.KObject, Name: "X2", Fields: []*sgen.Field{f("b", N("Int"))}},
 		}},
+		// names that differ only in case, of the same kind (the type table is ordered by rank and name)
+		{Defs: []*sgen.Def{
+			{Kind: sgen.KObject, Name: "Query", Fields: []*sgen.Field{f("n", N("Node")), f("m", N("node")), f("k", N("Kind")), f("j", N("kind"))}},
+			{Kind: sgen.KObject, Name: "node", Dirs: []sgen.DirUse{{Name: "tag"}}, Fields: []*sgen.Field{f("b", N("Int"))}},
+			{Kind: sgen.KObject, Name: "Node", Dirs: []sgen.DirUse{{Name: "Tag"}}, Fields: []*sgen.Field{f("a", N("Int"))}},
+			{Kind: sgen.KEnum, Name: "kind", Values: []*sgen.EnumVal{{Name: "y"}}},
+			{Kind: sgen.KEnum, Name: "Kind", Values: []*sgen.EnumVal{{Name: "Y"}}},
+			{Kind: sgen.KDirective, Name: "tag", Locations: []string{"OBJECT"}},
+			{Kind: sgen.KDirective, Name: "Tag", Locations: []string{"OBJECT"}},
+		}},
+		// no schema block: the implicit schema is extended with root types that may arrive in the same load as the extension
+		{Blocks: []*sgen.SchemaBlock{{Extend: true, Mutation: "Change", Subscription: "Feed"}},
+			Defs: []*sgen.Def{
+				{Kind: sgen.KObject, Name: "Query", Fields: []*sgen.Field{f("q", N("Int"))}},
+				{Kind: sgen.KObject, Name: "Change", Fields: []*sgen.Field{f("bump", N("Int"))}},
+				{Kind: sgen.KObject, Name: "Feed", Fields: []*sgen.Field{f("ev", N("Int"))}},
+			}},
 		{Defs: []*sgen.Def{
 			{Kind: sgen.KObject, Name: "Query", Fields: []*sgen.Field{f("a", N("A"))}},
 			{Kind: sgen.KObject, Name: "A", Fields: []*sgen.Field{f("id", N("ID"))}},
@@ -154,6 +171,16 @@ func unitRefs(u sgen.Unit) (defines []string, needs []string) {
 
 func prefixClosed(units []sgen.Unit, loads [][]int) bool {
 	have := map[string]bool{}
+	// a schema nobody declares is the implicit one: it exists from the start and 'extend schema' may come in any load
+	declared := false
+	for _, u := range units {
+		if u.Block != nil && !u.Block.Extend {
+			declared = true
+		}
+	}
+	if !declared {
+		have["schema"] = true
+	}
 	for _, load := range loads {
 		for _, ui := range load {
 			defs, _ := unitRefs(units[ui])
@@ -173,7 +200,7 @@ func prefixClosed(units []sgen.Unit, loads [][]int) bool {
 	return true
 }
 
-const introQuery = `{__schema{queryType{name} mutationType{name} subscriptionType{name}
+const introQuery = `{__schema{queryType{name kind fields{name}} mutationType{name kind fields{name}} subscriptionType{name kind fields{name}}
  types{kind name description fields(includeDeprecated:true){name description isDeprecated deprecationReason args{name description defaultValue type{kind name ofType{kind name ofType{kind name ofType{kind name}}}}} type{kind name ofType{kind name ofType{kind name ofType{kind name}}}}}
   interfaces{name} possibleTypes{name} enumValues(includeDeprecated:true){name description isDeprecated deprecationReason} inputFields{name description defaultValue type{kind name ofType{kind name ofType{kind name}}}}}
  directives{name description locations args{name defaultValue type{kind name ofType{kind name}}}}}}`
@@ -226,6 +253,7 @@ type c16Outcome struct {
 	err      string
 	canon    string
 	intro    string
+	order    string // names of Root.Types() and Root.Directives() in the order the root lists them (rank + name: arrangement independent)
 	panicked *core.PanicInfo
 }
 
@@ -257,6 +285,15 @@ func c16Load(units []sgen.Unit, arr arrangement, dirNames []string, wantIntro bo
 		return o
 	}
 	o.canon = back.Canonical(sgen.CanonOpts{FillDirDefaults: true})
+	var names []string
+	for _, t := range root.Types() {
+		names = append(names, t.Name())
+	}
+	names = append(names, "|")
+	for _, t := range root.Directives() {
+		names = append(names, t.Name())
+	}
+	o.order = strings.Join(names, " ")
 	if wantIntro {
 		var res map[string]interface{}
 		if pi := core.Safe(func() { res = root.ResolveString(introQuery, "", nil) }); pi != nil {
@@ -269,6 +306,15 @@ func c16Load(units []sgen.Unit, arr arrangement, dirNames []string, wantIntro bo
 			nerr = len(es)
 		}
 		o.intro = fmt.Sprintf("errors=%d data=%s", nerr, toJSON(canonIntro(world.Canon(res["data"]))))
+		// requests against every operation root resolve identically
+		for _, rq := range []string{"{__typename}", "mutation {__typename}", "{__typename __schema{mutationType{name kind}}}"} {
+			var r2 map[string]interface{}
+			if pi := core.Safe(func() { r2 = root.ResolveString(rq, "", nil) }); pi != nil {
+				o.panicked = pi
+				return o
+			}
+			o.intro += " | " + rq + " -> " + string(toJSON(canonIntro(world.Canon(r2))))
+		}
 	}
 	return o
 }
@@ -535,6 +581,11 @@ func c16Compare(c *core.Ctx, si int, set *sgen.Schema, units []sgen.Unit, arr ar
 	if got.canon != ref.canon {
 		c.Outcome("schema-differs")
 		c.Violation("arrangement-diff", withKV(attrs, "what", "schema-differs"), map[string]interface{}{"arrangement": render(), "diff": firstLineDiff(ref.canon, got.canon)})
+		return
+	}
+	if got.order != ref.order {
+		c.Outcome("table-order-differs")
+		c.Violation("arrangement-diff", withKV(attrs, "what", "type-table-order-differs"), map[string]interface{}{"arrangement": render(), "want": ref.order, "got": got.order})
 		return
 	}
 	if got.intro != ref.intro {
